@@ -25,7 +25,7 @@ _BIN = {
     ast.FloorDiv: lambda a, b: a // b, ast.BitAnd: lambda a, b: a & b, ast.BitOr: lambda a, b: a | b, ast.LShift: lambda a, b: a << b,
     ast.RShift: lambda a, b: a >> b,
 }
-_STR_METHODS = ('startswith', 'endswith', 'find', 'strip', 'lower', 'rindex', 'index', 'split')
+_STR_METHODS = ('startswith', 'endswith', 'find', 'strip', 'lower', 'upper', 'rindex', 'index', 'split', 'rfind', 'lstrip', 'rstrip', 'ljust', 'rjust', 'replace', 'isdigit', 'count', 'rsplit', 'partition', 'rpartition')
 
 
 def ev(node, env, hook=None):
@@ -89,7 +89,8 @@ def ev(node, env, hook=None):
         if isinstance(node.slice, ast.Slice):
             lo = ev(node.slice.lower, env, hook) if node.slice.lower is not None else None
             hi = ev(node.slice.upper, env, hook) if node.slice.upper is not None else None
-            return base[lo:hi]
+            step = ev(node.slice.step, env, hook) if node.slice.step is not None else None
+            return base[lo:hi:step]
         return base[ev(node.slice, env, hook)]
     if isinstance(node, ast.Call):
         fn = node.func
